@@ -311,7 +311,11 @@ def check(ctx):
     if len(r) == 1 and isinstance(r[0].value, ast.Call) and ast.unparse(r[0].value.func) == 'sum' and isinstance(r[0].value.args[0], (ast.GeneratorExp, ast.ListComp)):
         lc = r[0].value.args[0]
         gen = lc.generators[0]
-        oks = len(lc.generators) == 1 and ast.unparse(gen.iter) == 'self._assets' and ast.unparse(lc.elt) == f'{gen.target.id}.value' \
+        it_ = gen.iter
+        # the registry itself, or the registry filtered by find_assets(subtype=Asset) (what that filter keeps is decided by C20.6)
+        via_find = isinstance(it_, ast.Call) and ast.unparse(it_.func) == 'self.find_assets' and not it_.args and len(it_.keywords) == 1 \
+            and it_.keywords[0].arg == 'subtype' and ast.unparse(it_.keywords[0].value) == 'Asset'
+        oks = len(lc.generators) == 1 and (ast.unparse(it_) == 'self._assets' or via_find) and isinstance(gen.target, ast.Name) and ast.unparse(lc.elt) == f'{gen.target.id}.value' \
             and all(ast.unparse(i) == f'isinstance({gen.target.id}, Asset)' for i in gen.ifs)
     if not oks:
         o.fail(P, 'System.get_net_value_of_assets', 'return sum(x.value for x in self._assets if isinstance(x, Asset))', 'the net value is not the sum of the values of the registered assets',
